@@ -800,7 +800,7 @@ class Interp:
             return obj
         if args or kwargs:
             # object.__init__ with arguments
-            if found and found[1] is object.__init__:
+            if found and found[1] is object.__init__ and cls.__new__ is object.__new__:
                 self.raise_py(TypeError, f"{cls.__name__}() takes no arguments")
             raise Unsupported(f"constructor of {cls.__name__} without source")
         return obj
